@@ -95,7 +95,7 @@ E = {
     "C32": dict(title="generative function closures and keyword handling are transparent", strength="partial",
                 modules=["GenjaxVerif.Props.C32"],
                 theorems=["C32_closure_args", "C32_closure_transparent"],
-                props=["C01", "C02", "C03", "C05", "C07"], opts={"upd": 3.0, "regen": 1.5, "gen": 1.0, "reclose": 2.5},
+                props=["C01", "C02", "C03", "C05", "C07"], opts={"upd": 2.0, "regen": 1.5, "gen": 0.7, "reclose": 4.0, "proj": 0.3, "assessSelf": 0.5},
                 focus={"closure": 14.0}),
     "C34": dict(title="get_subtrace returns the sub-execution at an address", strength="partial",
                 modules=["GenjaxVerif.Props.C34"],
@@ -112,8 +112,8 @@ E = {
                 theorems=["C38_propose_eq_simulate", "C38_importance_eq_generate", "C38_empty_request_nochange",
                           "C38_empty_request_changed", "C38_simulate_weight", "C38_static_request_of_updates",
                           "C38_static_request_of_regenerates", "C38_static_request_table", "C38_static_request_empty",
-                          "C38_static_request_weight", "C38_static_request_static_only"],
-                props=["C38", "C01", "C06"], opts={"propose": 3.0, "empty": 3.0, "upd": 1.0, "regen": 0.3, "proj": 0.3, "sreq": 3.0},
+                          "C38_static_request_weight", "C38_static_request_static_only", "C38_diff_annotate_identity"],
+                props=["C38", "C01", "C06"], opts={"propose": 3.0, "empty": 3.0, "upd": 2.0, "regen": 1.0, "proj": 0.5, "sreq": 3.0, "derived": True},
                 focus={"int": 14.0, "static": 4.0}),
 }
 
